@@ -1,7 +1,7 @@
 PROP = dict(
     harness="c11", level="exploration",
     quick=dict(cases=3200, max_size=40, workers=8),
-    thorough=dict(cases=64000, max_size=60, workers=8),
+    thorough=dict(cases=48000, max_size=60, workers=8),
     rule=("rapidcheck per-thread operation scripts executed by 2..16 real threads (all released together by a spin barrier) under "
           "ThreadSanitizer: mode A alloc/release/shrink/query/write/statistics on one shared JitAllocator (random CreateParams), mode B "
           "add/call/query/release of tiny functions through one shared JitRuntime (each thread its own CodeHolder + Assembler/Compiler), "
